@@ -10,6 +10,7 @@
 -/
 import Optyx.Lemmas.JacSVPaths
 import Optyx.Drive.Jac
+import Optyx.Props.Closures
 
 namespace Optyx.Props.C19
 open Optyx Optyx.Py Optyx.Py.Jac NumAlg Optyx.Generated
